@@ -149,7 +149,7 @@ Definition check_par (prop : Z) (inp impl : sx) : sx :=
       | _, _, _, _ => badcase
       end
   (* ---- real TCP runs against a loopback target *)
-  | L [A 12; A me; A capab], L [A status; A has_ns; A has_cause_i; A syn; A ackpsh; A accepted; L closes; A tuple_mismatch; A endpoint_mismatch; A drained; A leaked] =>
+  | L [A 12; A me; A capab], L [A status; A has_ns; A has_cause_i; A syn; A ackpsh; A accepted; L closes; A tuple_mismatch; A endpoint_mismatch; A drained; A foreign_hops; A leaked] =>
       let m := d_method me in
       let fault := if capab <=? 1 then FNone else if capab =? 2 then FNoSackPermitted else if (capab =? 3) || (capab =? 9) then FAckWithoutSack
                    else if capab =? 4 then FDial injected else if capab =? 5 then FHandshakeNotCaptured else if capab =? 6 then FFilter injected
@@ -171,6 +171,10 @@ Definition check_par (prop : Z) (inp impl : sx) : sx :=
                     else []
                 | _ => []
                 end)
+        else if prop =? 1 then
+          (* the only inbound packets of these runs are handshake segments and time-exceeded errors quoting ANOTHER source
+             port: no hop can be backed by a genuine reply *)
+          (if foreign_hops =? 0 then [] else [1; 3])
         else if prop =? 6 then
           (* the source and destination endpoints a run reports are the ones of the probes it wrote *)
           (if endpoint_mismatch =? 0 then [] else [6; 5])
@@ -267,7 +271,7 @@ Definition check_par (prop : Z) (inp impl : sx) : sx :=
           let want_reg := repeat me (Z.to_nat q) in
           let want_e2e := repeat (e_method (rp_method (e2e_params p))) (Z.to_nat n) in
           let spec_fail : list Z :=
-            if prop =? 20 then
+            if (prop =? 20) || (prop =? 19) then
               (if status =? 2 then [20; 9]
                (* every traceroute run of the request is started with the requested method (sack stays sack, prefer_sack stays
                   prefer_sack: the per-run policy then decides) *)
